@@ -53,6 +53,8 @@ def canonical_build(items):
 
 
 def bf_csv(bf):
+    if bf is None:
+        return "D,D,D,D"        # no branch-format option at all
     return ",".join(hx(x) for x in bf)
 
 
